@@ -23,6 +23,17 @@ REPRESENTATIVES = {
 }
 
 
+def status_of(pos_x: int, pos_y: int) -> int:
+    """status of the ordered pair (x, y) in a ranking that gives them these position values (-1 = unranked)"""
+    if pos_x != UNRANKED and pos_y != UNRANKED:
+        return 0 if pos_x < pos_y else (1 if pos_x > pos_y else 2)
+    if pos_x != UNRANKED:
+        return 3
+    if pos_y != UNRANKED:
+        return 4
+    return 5
+
+
 def definitional_cost(placement: str, status: int):
     """('B'|'T', index) charged for `placement` of x w.r.t. y when the input ranking has `status`."""
     if placement == "before":
